@@ -87,7 +87,7 @@ CHECKS = {
     },
     "C13": {
         "level": "exploration",
-        "rule": "(store) rapid-generated state-machine histories on the real ban store over bbolt in a synctest bubble: ban / unban / status / census / clock advance (incl. jumps to just before and after an expiry) / reopen / junk input over 12 textual spellings per address family and symbolic masks, compared with a map model keyed by the canonical (ip, mask); the two bbolt indexes are read back at the end. Non-trivial = a generated status query saw one network both strictly before floor(expiry) and at/after expiry of the same ban, or queried a banned network after a reopen that followed its ban; distinct = distinct case JSON",
+        "rule": "(store) rapid-generated state-machine histories on the real ban store over bbolt in a synctest bubble: ban / unban / status / census / clock advance (incl. jumps to just before and after an expiry) / reopen / junk input over 12 textual spellings per address family and symbolic masks, compared with a map model keyed by the canonical (ip, mask); the two bbolt indexes are read back at the end. Non-trivial = a generated status query saw one network both strictly before floor(expiry) and at/after expiry of the same ban, or queried a banned network after a reopen that followed its ban; distinct = distinct case JSON Unit enforce: the real client against 2-6 scripted peers (full service / no witness / no compact filters / neither / provable filter-header liars / invalid-block server; slow handshakes) under connect, drop, clock advances and jumps to just before / at / after a ban's expiry, BanPeer / UnbanPeer API calls and GetBlock; a connection spy records every dial, the client's first write and the instant the client has read the peer's version. After every event at quiescence, against a ban table built by the harness: a peer lacking a service bit is banned with reason NoCompactFilters from the version-read instant for 24h (stored expiry = floor(t+24h)), no banned address is in Peers(), the client never writes on a connection dialled while the address was banned, API bans / unbans take effect at once with the given reason, a lapsed or lifted ban lets a clean peer back in within 12 virtual seconds, an invalid-block sender is banned with InvalidBlock, innocent peers are never banned, IsBanned agrees with a second store on the same database. Non-trivial there = a service-bit ban and (a lapse, a lifting unban or a dial while banned).",
         "assumptions": [
             "expiry is stored with one-second granularity: inside [floor(expiry), expiry) either answer is accepted",
             "an IPv4 network written with a 16-byte mask is not generated (API-level representation, not a textual form of an address; production callers pass a nil mask)",
@@ -97,6 +97,9 @@ CHECKS = {
             {"name": "banstore", "module": "harness", "pkg": "./checks/c13", "test": "TestC13Store", "tags": "verif",
              "quick": {"checks": 1500, "shards": 16, "timeout": 600},
              "thorough": {"checks": 30000, "shards": 16, "timeout": 3600, "shrink": "60s"}},
+            {"name": "enforce", "module": "harness", "pkg": "./checks/c13", "test": "TestC13Enforce", "tags": "verif",
+             "quick": {"checks": 25, "shards": 16, "timeout": 900, "regress_n": 3},
+             "thorough": {"checks": 600, "shards": 16, "timeout": 5400, "shrink": "60s", "regress_n": 10}},
         ],
     },
     "C12": {
@@ -147,7 +150,7 @@ CHECKS = {
     },
     "C15": {
         "level": "exploration",
-        "rule": "(broadcaster) rapid-generated cases: 1-6 transactions in a chain / diamond / fan / random / independent dependency graph, a script of 4-32 operations over Broadcast(tx) with first-attempt outcome ok / mempool / invalid / fee / unknown / confirmed / plain error and callback latency, block event, tick, MarkAsConfirmed, wait, Stop, issued from concurrent goroutines (also after Stop), against the real pushtx.Broadcaster with a generated callback and a hand-made block subscription in a synctest bubble; a set model over the callback log checks every rebroadcast round (a trigger exists, no overlap, no duplicates, parents before children, exactly the accepted-and-unconfirmed set), trigger coverage, Broadcast return values, and that every Broadcast / MarkAsConfirmed / Stop call returns. Non-trivial = a round sent both ends of a dependency edge whose parent was accepted after the child, or a transaction was confirmed between two rounds; distinct = distinct case JSON",
+        "rule": "(broadcaster) rapid-generated cases: 1-6 transactions in a chain / diamond / fan / random / independent dependency graph, a script of 4-32 operations over Broadcast(tx) with first-attempt outcome ok / mempool / invalid / fee / unknown / confirmed / plain error and callback latency, block event, tick, MarkAsConfirmed, wait, Stop, issued from concurrent goroutines (also after Stop), against the real pushtx.Broadcaster with a generated callback and a hand-made block subscription in a synctest bubble; a set model over the callback log checks every rebroadcast round (a trigger exists, no overlap, no duplicates, parents before children, exactly the accepted-and-unconfirmed set), trigger coverage, Broadcast return values, and that every Broadcast / MarkAsConfirmed / Stop call returns. Non-trivial = a round sent both ends of a dependency edge whose parent was accepted after the child, or a transaction was confirmed between two rounds; distinct = distinct case JSON Unit verdict: the real client against 1-6 scripted peers whose answer to the transaction's inv is generated (silent / getdata and accept / getdata then reject with one of 28 (code, reason) pairs of the reject table / reject without getdata / getdata twice / reject twice / reject for another hash / late getdata or reject around the broadcast and reject timeouts / disconnect after getdata), generated invalid-share threshold (3/5, 1/2, 3/4) with reply counts on and next to it, then block events and interval ticks, optionally a confirmation round and a racing Stop. Oracle from what the peers put on the wire: nobody replied -> success; every replier rejected -> the most frequent class decides (mempool = success, kept); invalid share >= threshold -> Invalid error; otherwise success - enforced in both directions; the call returns within broadcast + reject timeout; after success every connected peer is sent inv(tx) again on the next block event and tick, after failure or confirmation never. Non-trivial there = at least two repliers and one reject delivered in time.",
         "assumptions": [
             "within one virtual instant only causally forced orders are used; overlapping events are treated as uncertainty intervals",
             "a rejected re-attempt of a tracked transaction does not untrack it; Confirmed on a first attempt counts as a rejection",
@@ -157,6 +160,9 @@ CHECKS = {
             {"name": "broadcaster", "module": "harness", "pkg": "./checks/c15", "test": "TestC15Broadcaster", "tags": "verif",
              "quick": {"checks": 2500, "shards": 16, "timeout": 600},
              "thorough": {"checks": 60000, "shards": 16, "timeout": 3600, "shrink": "60s"}},
+            {"name": "verdict", "module": "harness", "pkg": "./checks/c15", "test": "TestC15Verdict", "tags": "verif",
+             "quick": {"checks": 20, "shards": 16, "timeout": 900, "regress_n": 3},
+             "thorough": {"checks": 500, "shards": 16, "timeout": 5400, "shrink": "60s", "regress_n": 10}},
         ],
     },
     "C05": {
